@@ -27,7 +27,7 @@ RULE = (
     "enumerated class once; distinct by digest."
 )
 MANIFEST = {
-    "text": "Injectivity search in three layers: complete enumeration of all small coloured graphs (every isomorphism class exactly once, so any collision is a real one), near-miss pairs constructed to defeat weak invariants (same formula, degrees and colour-refinement histogram), and a run-wide collision dictionary. Equal strings are only accepted with an explicit, verified isomorphism.",
+    "text": "Injectivity search in three layers (strings obtained through the graph constructor and through own V2000/V3000 renderings read by the library): complete enumeration of all small coloured graphs (every isomorphism class exactly once, so any collision is a real one), near-miss pairs constructed to defeat weak invariants (same formula, degrees and colour-refinement histogram), and a run-wide collision dictionary. Equal strings are only accepted with an explicit, verified isomorphism.",
     "note": "Completeness of the identifier is established exhaustively only below the enumeration bound; beyond it it is sampled. Trusted: own orbit enumeration (self-tested on known counts) and verify_mapping.",
     "technique": "finite-domain enumeration of all small coloured graphs + property-based near-miss pair generation (Hypothesis, 16 shards) against an independent isomorphism oracle",
 }
